@@ -4,6 +4,7 @@ import (
 	"fmt"
 	"go/ast"
 	"go/constant"
+	"math/big"
 	"sort"
 	"strings"
 
@@ -320,6 +321,7 @@ func c18(c *core.Check) {
 		ok, why := core.DeleteBeforeRecursion(p, ie, "href")
 		r2.Cond(ok, "svg.(*svgContext).inheritElement | inheritElement(parent)", p.Pos(ie.Pos()), why, why)
 	}
+	c18Geometry(c)
 	r3 := c.Rule("R3", "no call passes two same-typed arguments under each other's parameter names (swapped arguments): every pair of arguments named after the callee's parameters is aligned with them", 60)
 	argNameRule(c, r3, "svg", nil, 90)
 }
@@ -343,4 +345,67 @@ func c18StoresField(fn *ssa.Function, dst, src string) bool {
 		}
 	})
 	return found
+}
+
+// c18Geometry folds the two closed-form geometry helpers of the path interpreter into polynomials.
+func c18Geometry(c *core.Check) {
+	p := c.Prog
+	r := c.Rule("R4", "path geometry in closed form: reflection(p, r) = 2p − r on both coordinates (the control point of a smooth segment), and quadraticToCubic elevates a quadratic Bézier exactly: CP1 = P0 + 2/3 (P1 − P0), CP2 = P2 + 2/3 (P1 − P2), end point P2", 2)
+	sym := core.SymP
+	twoThird := core.PolyConst(big.NewRat(2, 3))
+	if fn := p.Fn("svg", "reflection"); fn == nil {
+		r.Anchor("svg.reflection")
+	} else {
+		f := &core.Folder{MaxDepth: 1}
+		res, err := f.Fold(fn, []core.AV{sym("px"), sym("py"), sym("rx"), sym("ry")})
+		ok := err == nil && len(res) == 2
+		if ok {
+			x, okx := res[0].(core.Poly)
+			y, oky := res[1].(core.Poly)
+			wantX := sym("px").Mul(core.Num(2)).Add(sym("rx").Neg())
+			wantY := sym("py").Mul(core.Num(2)).Add(sym("ry").Neg())
+			ok = okx && oky && x.Equal(wantX) && y.Equal(wantY)
+		}
+		got := ""
+		if err == nil {
+			for _, v := range res {
+				got += core.AVString(v) + " "
+			}
+		}
+		r.Cond(ok, "svg.reflection", p.Pos(fn.Pos()), "(2·px − rx, 2·py − ry)", fmt.Sprintf("folds to %s(error: %v), SVG gives (2·px − rx, 2·py − ry)", got, err))
+	}
+	if fn := p.Fn("svg", "quadraticToCubic"); fn == nil {
+		r.Anchor("svg.quadraticToCubic")
+	} else {
+		f := &core.Folder{MaxDepth: 1}
+		res, err := f.Fold(fn, []core.AV{sym("x0"), sym("y0"), sym("x1"), sym("y1"), sym("x2"), sym("y2")})
+		var diffs []string
+		if err != nil || len(res) != 1 {
+			diffs = append(diffs, fmt.Sprintf("could not be folded: %v", err))
+		} else {
+			cp := func(a, b string) core.Poly { // a + 2/3 (b - a)
+				return sym(a).Add(sym(b).Add(sym(a).Neg()).Mul(twoThird))
+			}
+			want := [3][2]core.Poly{{cp("x0", "x1"), cp("y0", "y1")}, {cp("x2", "x1"), cp("y2", "y1")}, {sym("x2"), sym("y2")}}
+			agg, ok := res[0].(core.Agg)
+			if !ok || len(agg.E) != 3 {
+				diffs = append(diffs, "result is not three points: "+core.AVString(res[0]))
+			} else {
+				for i := 0; i < 3; i++ {
+					pt, ok := agg.E[i].(core.Agg)
+					if !ok || len(pt.E) != 2 {
+						diffs = append(diffs, fmt.Sprintf("point %d: %s", i, core.AVString(agg.E[i])))
+						continue
+					}
+					for j := 0; j < 2; j++ {
+						g, ok := pt.E[j].(core.Poly)
+						if !ok || !g.Near(want[i][j], big.NewRat(1, 1000000)) {
+							diffs = append(diffs, fmt.Sprintf("control point %d coordinate %d = %s, exact elevation gives %s", i+1, j, core.AVString(pt.E[j]), want[i][j].String()))
+						}
+					}
+				}
+			}
+		}
+		r.Cond(len(diffs) == 0, "svg.quadraticToCubic", p.Pos(fn.Pos()), "CP1 = P0 + 2/3 (P1 − P0), CP2 = P2 + 2/3 (P1 − P2), P2", strings.Join(diffs, "; "))
+	}
 }
